@@ -395,6 +395,26 @@ fn c11_dom<D: Dom>(cx: &RunCtx) {
     let kinds = [Kind::Value, Kind::WellFormedErr, Kind::MustErrOk, Kind::MalformedOk];
     let inputs = c11_inputs(D::EV, cx.tier == Tier::Thorough);
     run_list::<D>(cx, "E-AGG argument lists x permutations", &inputs, &[D::default_at()], &kinds);
+    // the placeholder (every value of the critical pool, incl. the ends of the range: sums that overflow although
+    // the mean does not) in every position of lists of length 1..3
+    {
+        let mut ls: Vec<Vec<String>> = Vec::new();
+        lists(&["@", "2", "(-1)"], 1, 3, &mut ls);
+        let mut names: Vec<&str> = vec!["min", "max", "avg", "med", "median"];
+        if D::EV == Ev::I64 {
+            names.push("gcd");
+            names.push("lcm");
+        }
+        let mut at_inputs: Vec<String> = Vec::new();
+        for n in &names {
+            for l in &ls {
+                if l.iter().any(|x| x == "@") {
+                    at_inputs.push(format!("{}({})", n, l.join(",")));
+                }
+            }
+        }
+        run_list::<D>(cx, "E-AGG argument lists with the placeholder x critical pool", &at_inputs, &D::pool_critical(), &kinds);
+    }
     // relation through the API alone: an argument that fails on its own makes the aggregate fail
     let mut st = crate::report::Stats::default();
     let at = D::default_at();
